@@ -1,6 +1,12 @@
 pub mod c01;
 pub mod c02;
+pub mod c06;
+pub mod c07;
+pub mod c08;
 pub mod c09;
+pub mod c10;
+pub mod c11;
+pub mod c19;
 pub mod selftest;
 
 use mc_core::explore::{Ctx, Tier};
@@ -15,7 +21,13 @@ pub fn run(prop: &str, tier: Tier, only: Option<(String, String)>) -> i32 {
     match prop {
         "C01" => c01::run(&mk("model_checking")),
         "C02" => c02::run(&mk("model_checking")),
+        "C06" => c06::run(&mk("model_checking")),
+        "C07" => c07::run(&mk("model_checking")),
+        "C08" => c08::run(&mk("model_checking")),
         "C09" => c09::run(&mk("model_checking")),
+        "C10" => c10::run(&mk("model_checking")),
+        "C11" => c11::run(&mk("model_checking")),
+        "C19" => c19::run(&mk("model_checking")),
         _ => {
             eprintln!("unknown property {}", prop);
             2
